@@ -63,3 +63,28 @@ claim('C20', 'exploration',
       'Two IdPs and one SP configuration per IdP sit behind a router stub that calls the real DecodeUnverified* first; SSO Responses and LogoutResponses are issued in every layout of C08 and, where the envelope is not signed or checking is off, shaped by 19 envelope operators (duplicated / shadowed root attributes, several / nested / foreign-namespace Issuers, comments, CDATA, character references), raw or DEFLATE. Whenever validation under any configuration accepts, the pre-decode must have succeeded with equal ID, InResponseTo, Destination, Version and Issuer and the routed-to configuration must be the accepting one. No fault or schedule is essential; the simulator contributes the multi-party routing scenario and the workload.',
       'envelope shaping is only applied where an attacker could apply it (unsigned envelope or checking off); a colluding IdP signing shadowed attributes is outside the run space',
       'DESIGN.md 4 C20')
+claim('C13', 'exploration',
+      'deterministic simulation: SP->IdP leg with a strict recipient (conforming XML front end, goxmldsig verification, independent placement/algorithm/certificate checks) over key-configuration histories',
+      'The IdP stub trusts only what the SP publishes (GetSigningCertBytes / Metadata), receives signed AuthnRequests, LogoutRequests and LogoutResponses built under every key configuration (encryption / signing key by none, field, TLS field, setter, both, both-with-different-field-key; RSA or ECDSA), every supported signature algorithm and canonicaliser or the defaults, with configuration strings from the hostile pool, on first use, with a cached signing context and after an SP restart; it applies XML attribute-value normalisation before parsing, verifies the enveloped signature and checks Reference target, declared methods, embedded certificate, position right after Issuer and that the reported certificate is the configured signing (else encryption) key.',
+      'trusted: goxmldsig verification as the recipient verifier; concurrent first use is exercised by the C17 engine',
+      'DESIGN.md 4 C13')
+claim('C14', 'exploration',
+      'deterministic simulation (thin fit): SP->browser->IdP redirect leg; the recipient recomputes the signed octets from the raw URL',
+      'Redirect builders (AuthnRequest redirect signed or not, LogoutRequest redirect, POST-flavoured URL builders, AuthRedirect Location header) are driven with hostile relay states, documents with hostile strings, endpoints with existing query parameters and every key configuration / algorithm; the IdP stub splits the raw query itself, checks endpoint and surviving parameters, inflates SAMLRequest to exactly the document, RelayState presence and value, SigAlg, and verifies the signature with crypto/rsa or crypto/ecdsa over SAMLRequest=..[&RelayState=..]&SigAlg=.. built from the percent-encoded octets as they appear. No fault or schedule is essential; the simulator contributes the second party.',
+      'trusted: Go crypto for raw verification',
+      'DESIGN.md 4 C14')
+claim('C15', 'exploration',
+      'deterministic simulation: SP->IdP leg with simulated clock (instants, skew, zones) and a conforming recipient comparing against an expected document',
+      'All three produced kinds, signed or not, are received through the conforming XML front end and compared with an expected element skeleton (names, namespaces, exact attribute sets, schema order) and exact values built from the configuration, the call arguments and the SP node clock (year end, leap day, sub-second instants, non-UTC locations, skew); every string comes from the hostile pool in half of the runs, so a value that alters structure or is not recovered exactly is reported.',
+      'values restricted to XML characters',
+      'DESIGN.md 4 C15')
+claim('C16', 'exploration',
+      'deterministic simulation (thin fit): SP->browser(HTML5 parser)->IdP POST leg over sequences of form productions',
+      'Sequences of 1-4 POST form productions over the four builders (kinds and relay-state presence vary inside one process, exposing state shared between calls) with hostile relay states and documents are parsed with golang.org/x/net/html: DOM skeleton equal to the benign page of the same build, one POST form whose action is the flow endpoint as URL, message field decoding to exactly the document, RelayState present iff given and equal modulo HTML newline normalisation; the submitted document is re-verified at the IdP. Violations that depend on earlier runs of the same process are replayed with their minimised process history.',
+      'trusted: x/net/html as the HTML5 parser',
+      'DESIGN.md 4 C16')
+claim('C19', 'exploration',
+      'deterministic simulation: the IdP bootstraps trust only from published metadata and then uses it in protocol runs; clock-driven validity arithmetic',
+      'Metadata() and MetadataWithSLO(h) for h in {0,1,5,24,168,10^6,-1,-1000} are consumed as struct and through XML (marshal, conforming parse, unmarshal) under every key configuration, option combination, hostile URL/issuer strings and SP clock (skew, location, sub-second): entity ID, endpoints, bindings, flags and validUntil = clock UTC + 7 days or + h hours are checked, then the published signing certificate must verify the next signed message and an assertion encrypted to the published encryption certificate under every listed method must be accepted.',
+      'an encryption key is always configured (documented as required)',
+      'DESIGN.md 4 C19')
